@@ -16,7 +16,7 @@ USER = ['','','','u@','u:p@','user:pw@',':pw@',':@','@','a@b@','u:p:q@','us/er@'
 LABELS = [str((1 << 64) + 1), '0x%x' % ((1 << 64) + 1), '0%o' % ((1 << 64) + 5), '0x3000000000000007f000001', str((1 << 32) + 1), '0x%x' % ((1 << 32) * 7 + 9), 'a'*63,'a'*64,'a'*70,'xn--'+'a'*60,'h','host','example','EXAMPLE','ex-ample','a--b','ab--c','-a','a-','xn--exmple-cua','XN--EXMPLE-CUA','xn--','xn--a','\u00e4','b\u00fccher','\u05d0','\u05d0a','1\u05d0','a\u200d','\u0628\u200d','\u0645\u0660','\uff41','\u00df','\u03c2','%41','%c3%a4','%e4','a%','%zz','\u00ad','a\u0338','<\u0338','=\u0338','>\u0338','<%CC%B8','a_b','a~b','a!b',"a'b",'a*b','0','1','08','0x','0x1f','0XAB','4294967295','4294967296','256','255','999999999999','00000000001','0x100000000','1e3','a\u0301','\U0001f600','xn--80ak6aa92e','xn--nxasmq6b','faß','\u200c','a\u200cb','\u0644\u200c\u0627','%F0%9F%92%A9','%80','\ufffd']
 TLDS = ['xn--2da','\u0105','%2Ecom','com','org','de','','\u3002jp','\uff0ecom','.','0','1','0x7f','09','0x','1.','COM']
 IPV4 = ['1.2.3.4.5.6.7','1.2.3.4.5.6.7.8.9.','\u0131.2.3.4','1.2.3.\u0134','0x\u0141','0\u0178f.1','1\u012e2.3.4','1.2.3.4','127.1','0x7f.1','0177.0.0.1','1.2.3','1.2.3.4.','1.2.3.4.5','1..2','256.1.1.1','1.256.1.1','1.1.1.256','1.1.256','1.1.65535','1.1.65536','1.16777215','1.16777216','4294967295','4294967296','0xffffffff','0x100000000','08','09.1','0x','0x.1','1.0x','00000000000000000001','077777777777','037777777777','040000000000','1.2.3.08','1.2.3.4x','0x1g','.1','1.','a.1','0xx','0x1x','1x','x','0X1.0x2.0X3.4','1.2.0x','0.0.0.0','255.255.255.255','0x7F000001','017700000001','1.2.3.4..','..','1.2.3.0x100','1.2.65536','0.0.0.256']
-IPV6 = ['[\u0131::1]','[1::\u0162]','[\uff41::]','[::\U00010041]','[1:\u0132:3::]','[::1.\u0132.3.4]','[::]','[::1]','[1::]','[1:2:3:4:5:6:7:8]','[1:2:3:4:5:6:7::]','[::2:3:4:5:6:7:8]','[1::8]','[1:0:0:2:0:0:0:3]','[0:0:1:0:0:1:0:0]','[1:0:0:0:1:0:0:1]','[::1.2.3.4]','[::ffff:1.2.3.4]','[1:2:3:4:5:6:1.2.3.4]','[1:2:3:4:5:6:7:1.2.3.4]','[::1.2.3]','[::1.2.3.4.5]','[::01.2.3.4]','[::256.1.1.1]','[::1.2.3.4','[1:2:3:4:5:6:7:8:9]','[1::2::3]','[:1]','[1:]','[12345::]','[g::]','[::1]x','[FFFF:AbCd::0001]','[0:0:0:0:0:0:0:0]','[1:2:3:4:5:6:7]','[::.1.2.3]','[1:2:3:4:5:6::1.2.3.4]','[::1.2.3.4:5]','[::0.0.0.0]','[::255.255.255.255]','[0:1:0:1:0:1:0:1]','[1:0:0:1:0:0:0:0]','[]','[:]','[:::]','[1:2:3:4:5:6:7:8::]','[::1:2:3:4:5:6:7:8]','[1:2:3:4::5:6:7:8]','[1::2:3:4:5:6:7]','[0::0]','[::00001]','[::1.2.3.4.]','[::1.2..3]','[1:2:3:4:5:1.2.3.4]','[::10.0.0.1]','[::1.02.3.4]','[::1.2.3.300]']
+IPV6 = ['[::1.2.3.4294967297]','[::ffff:0.42949672970.0.1]','[1:2:3:4:5:6:1.2.12884901891.4]','[::100000001]','[::10001]','[::1.2.3.256]','[::1.2.3.18446744073709551617]','[\u0131::1]','[1::\u0162]','[\uff41::]','[::\U00010041]','[1:\u0132:3::]','[::1.\u0132.3.4]','[::]','[::1]','[1::]','[1:2:3:4:5:6:7:8]','[1:2:3:4:5:6:7::]','[::2:3:4:5:6:7:8]','[1::8]','[1:0:0:2:0:0:0:3]','[0:0:1:0:0:1:0:0]','[1:0:0:0:1:0:0:1]','[::1.2.3.4]','[::ffff:1.2.3.4]','[1:2:3:4:5:6:1.2.3.4]','[1:2:3:4:5:6:7:1.2.3.4]','[::1.2.3]','[::1.2.3.4.5]','[::01.2.3.4]','[::256.1.1.1]','[::1.2.3.4','[1:2:3:4:5:6:7:8:9]','[1::2::3]','[:1]','[1:]','[12345::]','[g::]','[::1]x','[FFFF:AbCd::0001]','[0:0:0:0:0:0:0:0]','[1:2:3:4:5:6:7]','[::.1.2.3]','[1:2:3:4:5:6::1.2.3.4]','[::1.2.3.4:5]','[::0.0.0.0]','[::255.255.255.255]','[0:1:0:1:0:1:0:1]','[1:0:0:1:0:0:0:0]','[]','[:]','[:::]','[1:2:3:4:5:6:7:8::]','[::1:2:3:4:5:6:7:8]','[1:2:3:4::5:6:7:8]','[1::2:3:4:5:6:7]','[0::0]','[::00001]','[::1.2.3.4.]','[::1.2..3]','[1:2:3:4:5:1.2.3.4]','[::10.0.0.1]','[::1.02.3.4]','[::1.2.3.300]']
 BADHOST = ['a b','a<b','a>b','a^b','a|b','a\\b','a[b','a]b','a@b','a:b','a%00b','a\x7fb','a\x01b','a%7fb','a%20b','a#b','a?b','a/b','[a',']',' ','%','a\tb','a%25b','a%2Fb','a%3Ab']
 PORTS = ['','','','',':',':80',':443',':21',':0',':8080',':65535',':65536',':00080',':000000080',':0000065535',':99999',':100000',':8x',':x',':-1',':80 ',':\uff10',':00000',':065536',':1\t2',':65616',':4294967376',':4294967297',':18446744073709551696',':131072',':' + '0' * 30 + '81']
 SEGS = ['a','b','c','.','..','%2e','%2E','.%2e','%2e.','%2E%2e','%2e%2E','.%2E','...','','x y','C:','C|','c|','d:','\u00e4','%','%g1','?','a;b',"a'b",'a`b','{x}','a\\b','a%5Cb','~','\x7f','a\x01','%00','\U0001f600','^','|','a|b','%7C','C%7C','%2e%2e%2e','.%2e.','\u0080','\u07ff','\u0800','\ud7ff','\ue000','\uffff','\U00010000','\U0010ffff']
